@@ -108,24 +108,24 @@ Definition spec_accepts (cf : config) (ks : list jwk) (now : Z) (cr : cred) : op
   | _ => None
   end.
 
-(* ---- where the code is known to deviate (findings), and the clock assumption ---- *)
+(* ---- where the code deviates or deviated (findings), and the clock assumption ---- *)
 
-(** C05-F1: an `exp` claim that is present and <= 0 is treated as "no expiry" *)
+(** C05-F1 (repaired by a3a89b7): an `exp` claim that is present and <= 0 was treated as "no expiry" *)
 Definition guard_F1 (cr : cred) : bool :=
   match cr with
   | CToken t => match c_exp (t_claims t) with Some e => (e <=? 0)%Z | None => false end
   | _ => false
   end.
 
-(** what is left of C05-F1 after fixes/C05-F1.diff ("is set" tested with IsZero()): an `exp` that is exactly the
-    Unix time of Go's zero time.Time (1 January of year 1) still counts as absent *)
-Definition guard_F1_residual (cr : cred) : bool :=
+(** C05-F3 (open; what a3a89b7 leaves of C05-F1, "is set" now being tested with IsZero()): an `exp` that is
+    exactly the Unix time of Go's zero time.Time (1 January of year 1, -62135596800) still counts as absent *)
+Definition guard_F3 (cr : cred) : bool :=
   match cr with
   | CToken t => match c_exp (t_claims t) with Some e => (e =? zero_time_unix)%Z | None => false end
   | _ => false
   end.
 
-(** C05-F2: an `nbf` or `iat` claim beyond int64 wraps around to "not set" *)
+(** C05-F2 (repaired by f16c3cc): an `nbf` or `iat` claim beyond int64 wrapped around to "not set" *)
 Definition guard_F2 (cr : cred) : bool :=
   match cr with
   | CToken t =>
